@@ -343,6 +343,8 @@ func runC15(r *Report) {
 	c15R4(r)
 	c15R5(r)
 	c15Bounded(r, "R1")
+	atomicWrites(r, "R1", objNamed("tracker", "locked"), 1)
+	c15TryLockIsCAS(r, tryLock)
 }
 
 func c15R3(r *Report) {
@@ -707,4 +709,69 @@ func c15Bounded(r *Report, rule string) {
 	}
 	r.Sentinel(rule+".http-exchange", nHTTP, 1)
 	r.Sentinel(rule+".udp-ops", nUDP, 2)
+}
+
+// c15TryLockIsCAS: the busy flag is taken by a compare-and-swap: tryLock answers true only as the outcome of
+// CompareAndSwap(&locked, 0, 1).  A test followed by a store lets two announces that arrive together both proceed:
+// both contact the tracker, and the second unlock panics ("unlocking unlocked torrent") or leaves the flag wrong.
+func c15TryLockIsCAS(r *Report, tryLock *ssa.Function) {
+	r.Fn(tryLock)
+	isCAS := func(v ssa.Value) bool {
+		c, ok := v.(*ssa.Call)
+		if !ok {
+			return false
+		}
+		h := c.Call.StaticCallee()
+		if h == nil || h.Pkg == nil || h.Pkg.Pkg.Path() != "sync/atomic" || !strings.HasPrefix(h.Name(), "CompareAndSwap") || len(c.Call.Args) != 3 {
+			return false
+		}
+		fa, okf := c.Call.Args[0].(*ssa.FieldAddr)
+		if !okf || fieldVar(fa) == nil || fieldVar(fa).Name() != "locked" {
+			return false
+		}
+		o, ok1 := constInt(c.Call.Args[1])
+		n, ok2 := constInt(c.Call.Args[2])
+		return ok1 && ok2 && o == 0 && n != 0
+	}
+	var okVal func(v ssa.Value, b *ssa.BasicBlock, d int) bool
+	okVal = func(v ssa.Value, b *ssa.BasicBlock, d int) bool {
+		if d > 4 {
+			return false
+		}
+		if bv, isb := constBool(v); isb {
+			if !bv {
+				return true
+			}
+			for _, g := range guardsOf(b) {
+				g = g.norm()
+				if g.Pol && isCAS(g.Cond) {
+					return true
+				}
+			}
+			return false
+		}
+		if isCAS(v) {
+			return true
+		}
+		if ph, ok := v.(*ssa.Phi); ok {
+			for i, e := range ph.Edges {
+				if !okVal(e, ph.Block().Preds[i], d+1) {
+					return false
+				}
+			}
+			return true
+		}
+		return false
+	}
+	good := true
+	var at token.Pos = tryLock.Pos()
+	for _, ret := range returnsOf(tryLock) {
+		res := retResults(ret)
+		if len(res) != 1 || !okVal(res[0], ret.Block(), 0) {
+			good = false
+			at = ret.Pos()
+		}
+	}
+	r.Check(good, "R1", "tryLock/acquires-by-compare-and-swap", at, "tryLock answers true only as the outcome of CompareAndSwap(&locked, 0, 1)",
+		"tryLock can answer true without having won a compare-and-swap on the busy flag: two announces arriving together (the periodic round and a state query, or two rounds) both take the flag, both contact the tracker, and the second unlock panics or leaves the tracker marked busy")
 }
